@@ -262,10 +262,17 @@ def enumerate_paths(f, start=0, unwind=False, max_paths=256, goals=None, max_len
     return paths
 
 
-def run_path(f, path, state=None):
+def run_path(f, path, state=None, last_stmts_only=False):
+    """execute the blocks of `path`; with last_stmts_only the terminator of the final block is
+    not executed (state right before that call)"""
     s = state.clone() if state else Sym(f)
-    for bb in path:
-        s.step_block(bb)
+    for i, bb in enumerate(path):
+        if last_stmts_only and i == len(path) - 1:
+            for st in f.stmts(bb):
+                if st["s"] == "assign":
+                    s.write_key(pl_key(st["lhs"]), s.rvalue(st["rhs"]))
+        else:
+            s.step_block(bb)
     return s
 
 
